@@ -288,11 +288,18 @@ func (x *Ctx) depthGuardedRecursion(r *core.Result, rs *core.RuleStat) {
 		}
 		sort.Strings(names)
 		key := "cycle{" + strings.Join(names, ",") + "}"
-		// listed exception: recursion over a caller-supplied in-memory tree
+		// exception by type: recursion over a caller-supplied in-memory value tree — no function of the cycle takes
+		// JSON input (every parameter is interface{}, []interface{} or map[string]interface{}), so its depth is
+		// bounded by a tree that already exists in memory, not by the input
 		exc := true
 		for _, f := range comp {
-			if f.Name() != "StdLibCompatibleSlice" && f.Name() != "StdLibCompatibleMap" {
+			if f.Signature.Recv() != nil || len(f.FreeVars) > 0 {
 				exc = false
+			}
+			for _, p := range f.Params {
+				if !isDecodedTreeType(p.Type()) {
+					exc = false
+				}
 			}
 		}
 		if exc {
@@ -607,3 +614,22 @@ func init() { Registry["C10"] = Prop{"other", C10} }
 
 var _ = types.Identical
 var _ = machine.IsMachine
+
+
+// isDecodedTreeType: interface{}, []interface{} or map[string]interface{} — the types of a decoded value tree.
+func isDecodedTreeType(t types.Type) bool {
+	isEmptyIface := func(t types.Type) bool {
+		i, ok := t.Underlying().(*types.Interface)
+		return ok && i.NumMethods() == 0
+	}
+	switch u := t.Underlying().(type) {
+	case *types.Interface:
+		return u.NumMethods() == 0
+	case *types.Slice:
+		return isEmptyIface(u.Elem())
+	case *types.Map:
+		b, ok := u.Key().Underlying().(*types.Basic)
+		return ok && b.Kind() == types.String && isEmptyIface(u.Elem())
+	}
+	return false
+}
